@@ -243,6 +243,11 @@ def _classify_cond(rk, ex, test, f):
                 if rk.is_sample(arg) or rk.is_sorted_sample(arg):
                     return 'min'
             return None
+        def raw_end(x):
+            x = strip_shape(x)
+            return isinstance(x, ast.Subscript) and rk.is_sample(x.value) and not rk.is_sorted_sample(x.value) and const_value(x.slice) in (0, -1)
+        if (is_q(a) and raw_end(b)) or (is_q(b) and raw_end(a)):
+            return 'rawend'
         flip = {ast.Gt: ast.Lt, ast.Lt: ast.Gt, ast.GtE: ast.LtE, ast.LtE: ast.GtE}
         if is_q(b) and end(a):
             a, b = b, a
@@ -284,6 +289,7 @@ def analyse(ck, fname, target, what):
         subst, hiL, loR, loL, hiR = {}, 'n', 0, 0, 'n'
         is_empty_path = False
         unknown = []
+        rawend = []
         for test, pol in conds:
             k = _classify_cond(rk, ex, test, f)
             if k == 'empty':
@@ -312,6 +318,8 @@ def analyse(ck, fname, target, what):
                     loL, loR = 1, 1
             elif k == 'neutral':
                 pass
+            elif k == 'rawend':
+                rawend.append(u(test))
             elif isinstance(test, ast.Compare) and len(test.ops) == 1 and isinstance(test.ops[0], (ast.Is, ast.IsNot)) \
                     and const_value(test.comparators[0]) is None and isinstance(test.left, ast.Name) and test.left.id not in (sample, query):
                 # a test whether an intermediate result exists: says nothing about ranks; a path that takes the "missing"
@@ -330,6 +338,11 @@ def analyse(ck, fname, target, what):
                 o.ok('empty sample -> None')
             else:
                 o.fail('an empty sample returns `%s` instead of signalling None' % u(ret.value))
+            continue
+        if rawend:
+            o.fail('the path is selected by `%s`: the first / last *stored* element of the sample, which is its minimum / maximum only for a '
+                   'sample stored in ascending order; for any other arrangement (12, 7, 9, 15, 7, 3, 9, 5 and v = 6) the out-of-range '
+                   'answer 0 or 1 is given for a value inside the range' % rawend[0])
             continue
         if unknown:
             o.unknown('path condition not understood: %s' % '; '.join(unknown)[:120])
